@@ -103,6 +103,95 @@ Section Xform.
     end.
 End Xform.
 
+(* ---- entry points modelled in theories/IndexGen.v and theories/Inspect.v ---- *)
+From GoCar Require IndexGen Inspect.
+Section Gen.
+  Variable hdrdec : bytes -> option (list bytes * N).
+  (* LoadIndex / GenerateIndex over a seekable source or a plain io.Reader (the tree as repaired by C03) *)
+  Definition tot_gen (k : IndexGen.srckind) (o : IndexGen.gopts) (all : bytes) : tout :=
+    if allocs_panic (gen_allocs hdrdec IndexGen.repaired k o all) then TPanic else
+    match IndexGen.load_index hdrdec k o all with
+    | Ok _ => TOk
+    | Err e => TErr e
+    end.
+End Gen.
+Section Insp.
+  Variable hok : bytes -> bytes -> option bool.
+  Variable hdrdec : bytes -> option (list bytes * N).
+  (* NewReader + Inspect(validateBlockHash) *)
+  Definition tot_inspect (o : ropts) (file : bytes) (validate : bool) : tout :=
+    if allocs_panic (inspect_allocs hok hdrdec o file validate) then TPanic else
+    match Inspect.inspect_file hok hdrdec o file validate with
+    | Ok _ => TOk
+    | Err e => TErr e
+    end.
+End Insp.
+
+(* ---- entry points modelled in theories/ReadOnly.v and theories/BlockReaderPos.v ---- *)
+From GoCar Require ReadOnly BlockReaderPos.
+Definition out_tout (x : out) : tout := match x with OErr e => TErr e | _ => TOk end.
+Section RO.
+  Variable hdrdec : bytes -> option (list bytes * N).
+  (* blockstore.NewReadOnly(backing, nil, opts...) and then Get(key) (through util.ReadNode) *)
+  Definition tot_robs (o : ReadOnly.qopts) (file : bytes) (key : option bytes) : tout :=
+    if allocs_panic (ro_open_allocs hdrdec o file) then TPanic else
+    match ReadOnly.ro_open hdrdec o file None with
+    | Err e => TOpen e
+    | Ok s =>
+      match key with
+      | None => TOk
+      | Some k =>
+        match cid_parse k with
+        | None => TErr EOther
+        | Some kp =>
+          if allocs_panic (ro_find_allocs s k kp true) then TPanic else out_tout (ReadOnly.ro_get s k)
+        end
+      end
+    end.
+  (* storage.OpenReadable and then Get(key) (GetStream through FindCid's size-only path + ReadAll) *)
+  Definition tot_storage (o : ReadOnly.qopts) (file : bytes) (key : option bytes) : tout :=
+    if allocs_panic (sto_open_allocs hdrdec o file) then TPanic else
+    match ReadOnly.sto_open hdrdec o file with
+    | Err e => TOpen e
+    | Ok s =>
+      match key with
+      | None => TOk
+      | Some k =>
+        match cid_parse k with
+        | None => TErr EOther
+        | Some kp =>
+          if allocs_panic (ro_find_allocs s k kp false) then TPanic else out_tout (ReadOnly.sto_get s k)
+        end
+      end
+    end.
+End RO.
+Section Brp.
+  Variable hok : bytes -> bytes -> option bool.
+  Variable hdrdec : bytes -> option (list bytes * N).
+  (* NewBlockReader, then Next (true) / SkipNext (false) as the choice list says, until the first error;
+     choices running out before that is reported as EFuel (excluded for |w| > |file|) *)
+  Definition tot_brskip (o : ropts) (seek : bool) (file : bytes) (w : list bool) : tout :=
+    if allocs_panic (brp_run_allocs hok hdrdec o seek file w) then TPanic else
+    match BlockReaderPos.brp_run hok hdrdec o seek file w with
+    | Err e => TOpen e
+    | Ok (_, _, _, (_, (Some e, _))) => TEnd e
+    | Ok (_, _, _, (_, (None, _))) => TEnd EFuel
+    end.
+End Brp.
+(* the harness repeats its choice bytes cyclically: odd = SkipNext *)
+Fixpoint cyc_choices (n : nat) (pat cur : bytes) : list bool :=
+  match n with
+  | O => []
+  | S k =>
+    match cur with
+    | b :: t => (b2n b mod 2 =? 0) :: cyc_choices k pat t
+    | [] => match pat with
+            | b :: t => (b2n b mod 2 =? 0) :: cyc_choices k pat t
+            | [] => true :: cyc_choices k pat []
+            end
+    end
+  end.
+
 (* carv2.Header.ReadFrom: two fixed-size reads, nothing input-sized *)
 Definition tot_v2hdr (s : bytes) : tout :=
   match read_v2hdr s with
@@ -150,12 +239,18 @@ Definition entry_v2hdr : N := 5.
 Definition entry_idx : N := 6.
 Definition entry_resume : N := 7.
 Definition entry_loadindex : N := 10.
+Definition entry_inspect : N := 13.
+Definition entry_brskip : N := 8.
+Definition entry_robs : N := 11.
+Definition entry_storage : N := 12.
 Definition entry_replaceroots : N := 14.
 Definition entry_extract : N := 15.
 (* 8.. : implementation-level entries (no model yet): brskip, reader, loadindex, robs, storage,
    inspect, replaceroots, extract, resume-huge, idxread-big (index.ReadFrom on megabyte inputs,
    which the extracted model is too slow for in the quick tier) *)
 
+(* entry numbers >= 100 are the implementation-level variants of entry - 100 (inputs the extracted model
+   would be too slow on: megabyte files, thousands of overlapping CIDs) *)
 Definition model_outcome (input : val) : tout :=
   let e := vN (vnth 0 input) in
   let o := v_ropts_t (vnth 1 input) in
@@ -177,11 +272,24 @@ Definition model_outcome (input : val) : tout :=
     let variant := match vB (vnth 1 extra) with b :: _ => b2n b | [] => 0 end in
     let xo codec storeid := Transform.mkxopts (o_maxh o) (o_zeof o) codec storeid 2048 (vN (vnth 4 extra)) in
     if e =? entry_loadindex then
-      (* modelled for a seekable source (bytes.Reader); variant 2 is ReadOrGenerateIndex *)
-      if (flavour =? 0) && negb (variant mod 4 =? 2) then
-        (if variant mod 4 =? 3 then tot_loadindex hdr (xo codec_sorted true) file
-         else tot_loadindex hdr (xo codec_mh_sorted false) file)
+      (* IndexGen.load_index: flavour 0 = bytes.Reader (seekable), 1 = plain io.Reader;
+         variant 3 = StoreIdentityCIDs; variant 2 is ReadOrGenerateIndex (not modelled here) *)
+      if negb (variant mod 4 =? 2) then
+        tot_gen hdr (if flavour =? 0 then IndexGen.SrcSeek else IndexGen.SrcPlain)
+                (IndexGen.mkgopts (o_zeof o) (o_maxh o) (variant mod 4 =? 3) 2048) file
       else TUnmodelled
+    else if e =? entry_inspect then tot_inspect hok hdr o file (negb (variant mod 2 =? 0))
+    else if e =? entry_brskip then
+      (* flavour 0 = bytes.Reader (SkipNext seeks), 1 = plain reader; 2 = Reader.DataReader(): not modelled *)
+      if flavour <? 2 then tot_brskip hok hdr o (flavour =? 0) file
+                                      (cyc_choices (S (length file)) (vB (vnth 1 extra)) [])
+      else TUnmodelled
+    else if e =? entry_robs then
+      tot_robs hdr (ReadOnly.mkq false false (o_zeof o) (o_maxh o) (o_maxs o) 2048 codec_mh_sorted) file
+               (match vL (vnth 2 extra) with k :: _ => Some (vB k) | [] => None end)
+    else if e =? entry_storage then
+      tot_storage hdr (ReadOnly.mkq false false (o_zeof o) (o_maxh o) (o_maxs o) 2048 codec_mh_sorted) file
+               (match vL (vnth 2 extra) with k :: _ => Some (vB k) | [] => None end)
     else if e =? entry_replaceroots then tot_replace hdr (xo codec_mh_sorted false) (vcids (vnth 3 extra)) file
     else if e =? entry_extract then tot_extract hdr (xo codec_mh_sorted false) (negb (variant mod 2 =? 0)) file
     else TUnmodelled.
@@ -232,7 +340,7 @@ Definition case_class (input : val) : string :=
   if (go_max_alloc <? o_maxh o) || (go_max_alloc <? o_maxs o) then "limit-above-runtime-max"
   else if (let s := payload_stream input in has_short_section (S (length s)) s)
   then "section-shorter-than-its-cid"
-  else "entry-" ++ (match vN (vnth 0 input) with
+  else "entry-" ++ (match vN (vnth 0 input) mod 100 with
                     | 0 => "br" | 1 => "carv1" | 2 => "root" | 3 => "rootload" | 4 => "version"
                     | 5 => "v2hdr" | 6 => "idxread" | 7 => "resume" | 8 => "brskip" | 9 => "reader"
                     | 10 => "loadindex" | 11 => "robs" | 12 => "storage" | 13 => "inspect"
@@ -241,7 +349,7 @@ Definition case_class (input : val) : string :=
 
 Definition failv (clause : string) (input : val) : val := VL [VT "FAIL"; VT clause; VT (case_class input)].
 Definition prop_total (input obs : val) : val :=
-  let e := vN (vnth 0 input) in
+  let e := vN (vnth 0 input) mod 100 in
   let o := v_ropts_t (vnth 1 input) in
   let file := vB (vnth 2 input) in
   let expect := vnth 6 input in
